@@ -20,14 +20,15 @@ git -C /repo worktree add -q "$WT" HEAD || exit 2
 res() { echo "$1" | tee -a "$WT/../val-$NAME.log"; }
 : > "$WT/../val-$NAME.log"
 cd "$WT"
+RACE=""; [ -n "${DEMO_RACE:-}" ] && { RACE="-race"; export CGO_ENABLED=1; }   # demos meant for `go test -race`
 cp "$M/demo_test.go" zz_demo_test.go
-if timeout 120 go test -vet=off -count=1 -run . . > /tmp/val.$$ 2>&1; then res "demo on unchanged tree: PASS (ok)"; D0=ok; else res "demo on unchanged tree: FAIL (bad)"; tail -5 /tmp/val.$$; D0=bad; fi
+if timeout 300 go test $RACE -vet=off -count=1 -run . . > /tmp/val.$$ 2>&1; then res "demo on unchanged tree: PASS (ok)"; D0=ok; else res "demo on unchanged tree: FAIL (bad)"; tail -5 /tmp/val.$$; D0=bad; fi
 rm -f zz_demo_test.go
 if ! git apply "$M/patch.diff"; then res "patch does not apply"; cd /; git -C /repo worktree remove --force "$WT"; exit 2; fi
 if go build ./... && go build -tags verif ./... ; then res "build: ok"; B=ok; else res "build: FAIL"; B=bad; fi
 if timeout 300 go test -vet=off -count=1 ./... > /tmp/val.$$ 2>&1; then res "existing tests with patch: PASS (ok)"; T=ok; else res "existing tests with patch: FAIL (bad)"; tail -5 /tmp/val.$$; T=bad; fi
 cp "$M/demo_test.go" zz_demo_test.go
-if timeout 120 go test -vet=off -count=1 -run . . > /tmp/val.$$ 2>&1; then res "demo with patch: PASS (bad)"; D1=bad; else res "demo with patch: FAIL (ok)"; D1=ok; fi
+if timeout 300 go test $RACE -vet=off -count=1 -run . . > /tmp/val.$$ 2>&1; then res "demo with patch: PASS (bad)"; D1=bad; else res "demo with patch: FAIL (ok)"; D1=ok; fi
 rm -f zz_demo_test.go /tmp/val.$$
 DET=""
 MISS=""
